@@ -1,5 +1,5 @@
 (* EvalProofs2.v — C18, part 2: the static score is bounded for any legal material
-   (one king; pawns + promoted surplus <= 8, which admits nine queens), never overflows
+   (one king; pawns + promoted surplus <= 8, which allows nine queens), never overflows
    i16, and is strictly dominated by every mate score WHITE_WINS + d / BLACK_WINS - d,
    d <= 255; the mate-score arithmetic itself does not overflow; stalemate scores 0;
    mate scores are strictly monotone in the remaining depth.
